@@ -1447,6 +1447,20 @@ func (e *Env) evalCall(n *ECall) SVal {
 			return mathInt("(strlen " + v.t + ")")
 		}
 		e.fail("len of %s", v.typ)
+	case "wlocked", "rlocked", "locked":
+		// lock discipline: the ghost lock state of a sync.Mutex / sync.RWMutex (the argument denotes the mutex: a
+		// mutex-typed field, or a pointer to one)
+		v := e.eval(n.Args[0])
+		st := e.stOf(v)
+		w := vc.heap(st, "GH.lkW", "(Array Int Bool)")
+		r := vc.heap(st, "GH.lkR", "(Array Int Int)")
+		switch id.Name {
+		case "wlocked":
+			return mathBool(fmt.Sprintf("(select %s %s)", w, v.t))
+		case "rlocked":
+			return mathBool(fmt.Sprintf("(> (select %s %s) 0)", r, v.t))
+		}
+		return mathBool(fmt.Sprintf("(or (select %s %s) (> (select %s %s) 0))", w, v.t, r, v.t))
 	case "cap":
 		v := e.eval(n.Args[0])
 		if v.typ != nil {
